@@ -332,6 +332,15 @@ example : ¬ (leafVarNames [] exAmbiguous).Nodup := by
 example : loadEnv ['P', '_'] [] exAmbiguous = .error .ambiguousEnv :=
   two_settings_collide _ _ _ [['a'], ['b']] [['a', '_', 'b']] (by decide) (by decide) (by decide)
     (by simp [envVarName, joinUnderscore, upperChar])
+/-- keys are opaque: the top-level key `a.b` and the nested path `a → b` are two settings with two variable names
+    (`A.B`, `A_B`); nothing is ambiguous, and each is cast by its own value -/
+def exDotted : KVs := [(['a', '.', 'b'], .leaf (.i 5)), (['a'], .dict [(['b'], .leaf (.s ['t']))])]
+example : leafVarNames [] exDotted = [['A', '.', 'B'], ['A', '_', 'B']] := by
+  simp [leafVarNames, leafPaths, exDotted, envVarName, joinUnderscore, upperChar]
+example : ∃ d, loadEnv ['P', '_'] [(['P', '_', 'A', '_', 'B'], ['7'])] exDotted = .ok d ∧
+    getLeaf [['a'], ['b']] d = some (.s ['7']) ∧ getLeaf [['a', '.', 'b']] d = none := by
+  simp [loadEnv, crawl, clash, hasVarName, varNames, exDotted, envVarName, joinUnderscore, upperChar, applyVars, lookupEnv,
+    getLeaf, lookup, castLeaf, generated_cast_order_documented, castWith, branchApplies, runBranch, setLeaf, insert]
 example : WF exTree := wfB_sound _ (by decide)
 example : castLeaf (.b true) ['0'] = .ok (.b false) ∧ castLeaf (.b false) ['n', 'o'] = .ok (.b true) :=
   ⟨((env_cast_table _).1 _), ((env_cast_table _).1 _)⟩
